@@ -130,5 +130,9 @@ class ConstantFolder(ast.NodeTransformer):
     def visit_IfExp(self, node):
         self.generic_visit(node)
         if isinstance(node.test, ast.Constant):
-            return node.body if node.test.value else node.orelse
+            test = node.test.value
+            # A constant holding a tuple node is as true as the tuple is non empty
+            if isinstance(test, ast.Tuple):
+                test = len(test.elts) > 0
+            return node.body if test else node.orelse
         return node
